@@ -49,6 +49,9 @@ def gen_arr(rng, maxops):
             ops.append(rng.choice(["first", "last"]))
         else:
             ops.append("len")
+    if rng.random() < 0.3:
+        # allocator refuses during some inserts: ENOMEM exactly when the block must grow
+        ops = [("!" + o) if o[0] == "i" and rng.random() < 0.25 else o for o in ops]
     return "arr|" + ";".join(ops)
 
 
